@@ -31,19 +31,32 @@ Definition w_x : query :=
   QSel CSQLLite [] false [IT (TNeg (TArith OAdd (TField "a" None None) (TField "b" None None) None))]
        [SrcT {| tname := "t"; tschema := []; talias := None |}] [] None None [] [] None None false None.
 
+Definition w_fl : option flat := Eval vm_compute in flat_of w_x.
+Definition w_ts : list stok := [SK KSel; SE KNeg; SE (KAtom """a"""); SE (KOp (BA OAdd)); SE (KAtom """b"""); SK KFrom; SSrc """t"""].
+Definition w_spec : expr := ENeg (EBin (BA OAdd) (EAtom """a""") (EAtom """b""")).      (* what was built *)
+Definition w_read : expr := EBin (BA OAdd) (ENeg (EAtom """a""")) (EAtom """b""").      (* what the text says *)
+Definition w_ast (e : expr) : sel_ast := mkAst false [(e, None)] ["""t"""] [] None [] None [] None None.
+
 Theorem C04_witness :
-  exists fl ts a a', flat_of w_x = Some fl /\ flat_toks fl = Some ts /\ flat_ast fl = Some a
-    /\ sflatten ts = "SELECT -""a""+""b"" FROM ""t"""
-    /\ read_select 100 ts = Some a' /\ a <> a' /\ sel_frag w_x = false.
-Proof. vm_compute. do 4 eexists. repeat split; try reflexivity. intros C. discriminate C. Qed.
+  (exists fl, flat_of w_x = Some fl /\ flat_toks fl = Some w_ts /\ flat_ast fl = Some (w_ast w_spec))
+  /\ sflatten w_ts = "SELECT -""a""+""b"" FROM ""t"""
+  /\ read_select 100 w_ts = Some (w_ast w_read)
+  /\ sel_frag w_x = false.
+Proof.
+  split; [|split; [|split]]; try (vm_compute; reflexivity).
+  destruct w_fl as [fl|] eqn:E; [|discriminate E].
+  exists fl. unfold w_fl in E. split; [exact E|].
+  injection E as <-. split; vm_compute; reflexivity.
+Qed.
 Print Assumptions C04_witness.
 
 Theorem C04_refuted : ~ C04_full_statement.
 Proof.
-  intros H. destruct C04_witness as [fl [ts [a [a' [E1 [E2 [E3 [_ [R [N _]]]]]]]]]].
-  destruct (H w_x fl ts a E1 E2 E3) as [_ [F HF]].
+  intros H. destruct C04_witness as [[fl [E1 [E2 E3]]] [_ [R _]]].
+  destruct (H w_x fl w_ts (w_ast w_spec) E1 E2 E3) as [_ [F HF]].
   specialize (HF (max F 100) (Nat.le_max_l _ _)).
-  pose proof (read_select_mono 100 (max F 100) ts a' (Nat.le_max_r _ _) R) as R'. congruence.
+  pose proof (read_select_mono 100 (max F 100) w_ts _ (Nat.le_max_r _ _) R) as R'.
+  rewrite HF in R'. discriminate R'.
 Qed.
 Print Assumptions C04_refuted.
 
@@ -100,12 +113,11 @@ Theorem C04_skeleton_partial :
   /\ filter (fun s => negb (is_modelled s)) (map snd x_select_path) = unmodelled_calls
   (* with the per-clause item flags and separators of the code *)
   /\ model_item_flags = x_item_flags
-  /\ x_pagination = [("_limit is not None", "_limit_sql"); ("_offset", "_offset_sql")]
   /\ x_distinct = ("DISTINCT ", "").
 Proof.
   split; [intros; apply select_is_its_segments; assumption|].
   split; [exact clause_order_matches_code|]. split; [exact unmodelled_are_known|].
-  split; [exact item_flags_match_code|]. split; [exact pagination_matches_code | exact distinct_matches_code].
+  split; [exact item_flags_match_code | exact distinct_matches_code].
 Qed.
 Print Assumptions C04_skeleton_partial.
 
